@@ -23,8 +23,14 @@ for job in sorted(os.listdir("/tmp/seed")):
         key = "%s-%d" % (pid, int(n) + (2 if mj.group(2) else 0))
         if not os.path.exists(d + "/patch.diff"):
             continue
+        if notes.get(key, {}).get("retired"):
+            # a change that turned out not to break the property (any more) is not kept; DESIGN 8.5 lists it with the reason
+            if os.path.isdir("/verif/seeded/" + key):
+                shutil.rmtree("/verif/seeded/" + key)
+            print("retired %s: %s" % (key, notes[key]["retired"][:100]))
+            continue
         vlog = open(d + "/verify.log").read() if os.path.exists(d + "/verify.log") else ""
-        ok = "RESULT ok" in vlog
+        ok = (re.findall(r"RESULT.*", vlog) or [""])[-1].startswith("RESULT ok")
         if not ok and key not in force:
             print("skip %s (not verified: %s)" % (key, (re.findall(r"RESULT.*", vlog) or ["no verify.log"])[-1]))
             continue
